@@ -1,10 +1,62 @@
 """C03 — each command gets exactly one well-formed RESP reply, in request order.
-Theorems: Resp.decode_encode / decodeList_encode (the independent decoder inverts the reply encoder); tie: serve engine — the raw byte
-stream written by Manager.Handle is decoded by that verified decoder, must be consumed entirely and yield one value per command in order."""
-from .. import core, servesuite
+Theorems: Resp.decode_encode / decodeList_encode (the independent decoder inverts the reply encoder); Props/C03Sites.lean (regenerated fact F6:
+no line reply — simple string / error — is built from the command words, the line replies with a non-constant payload equal a reviewed
+inventory); tie: serve engine — the raw byte stream written by Manager.Handle is decoded by that verified decoder, must be consumed entirely
+and yield one value per command in order.  When F6 breaks, sessions aimed at the commands whose executors hold the offending call (every
+argument position carrying CR LF) are added; a framing break found is reported with its session, otherwise `no-failing-input-found` names
+the call and the theorem."""
+import itertools
+
+from .. import core, facts, gen, servesuite
+
+INJECT = b"x\r\n+INJECTED"
+FILL = [b"k", b"1", b"a", b"0", b"nx", b"limit", b"count", b"maxlen", b"*", b"-", b"+"]
+# no ZADD / float commands: the serve engine does not ship ParseFloat bits to the model
+SEEDS = [[b"SET", b"ks", b"v"], [b"RPUSH", b"kl", b"a", b"b"], [b"SADD", b"kt", b"a"], [b"HSET", b"kh", b"f", b"1"], [b"XADD", b"kx", b"1-1", b"f", b"v"]]
+KEYS = [b"k", b"ks", b"kl", b"kt", b"kh", b"kx"]
+
+
+def directed(fx, broken):
+    """one session per implicated command: seed a key of every type, then the command at every length 2..6 with CR LF in every argument position"""
+    by_fn = {}
+    for name, fn in (fx.get("commands") or {}).items():
+        by_fn.setdefault(fn, []).append(name)
+    cmds = sorted({c for s in broken.get("client", []) + broken.get("new", []) for c in by_fn.get(s["func"], [])})
+    if any(s["func"].endswith(("selectDB", "Select", "execOn", "ExecCommand")) for s in broken.get("client", []) + broken.get("new", [])):
+        cmds.append("select")
+    lines = []
+    for c in cmds:
+        if c in ("subscribe", "blpop", "brpop"):
+            continue
+        lines.append("S 16")
+        lines.append("C 1 %s" % core.hx(b"".join(gen.enc_cmd(s) for s in SEEDS)))
+        name = c.encode()
+        for n in range(1, 6):
+            for pos in range(n):
+                fills = FILL if n <= 3 else FILL[:4]
+                for key in (KEYS if pos != 0 else [None]):
+                    for rest in itertools.islice(itertools.product(fills, repeat=max(0, n - 2 if pos != 0 else n - 1)), 40):
+                        args = []
+                        it = iter(rest)
+                        for i in range(n):
+                            if i == pos:
+                                args.append(INJECT)
+                            elif i == 0:
+                                args.append(key)
+                            else:
+                                args.append(next(it, b"1"))
+                        lines.append("C 1 %s" % core.hx(gen.enc_cmd([name] + args)))
+    return lines, cmds
 
 
 def run(R, ctx):
+    broken = getattr(R, "replies_broken", None)
+    extra, aimed = [], []
+    if broken:
+        fx = facts.extract()
+        if fx:
+            extra, aimed = directed(fx, broken)
+            R.extra["f6_directed"] = dict(commands=aimed, lines=len(extra))
     servesuite.run_serve_suite(R, ctx, "replies", (150, 3000),
                                "Pipelines up to 5 commands per write with CR/LF/NUL inside keys, values, channel names and command names; "
                                "unknown commands; `*0`; values that are not commands (no reply expected). "
@@ -12,7 +64,17 @@ def run(R, ctx):
                                "moment (PAR steps); every client must get exactly its own replies. "
                                "Slow-reader sessions: a client pipelines 1 MiB replies, reads the first chunk, does not read for 6.5 s (thorough: also 12 s, 35 s), then "
                                "reads on: every reply whole and in order.", parallel=6,
-                               stalls=((6500,) if R.tier == "quick" else (6500, 12000, 35000)))
+                               stalls=((6500,) if R.tier == "quick" else (6500, 12000, 35000)), extra_lines=extra)
+    if broken and not any(found for _p, _s, found in R.violations):
+        # fact F6 is broken and neither the suite nor the sessions aimed at the offending executors produced a framing break: name the call
+        if all(t.startswith("ReplySites.") for t, _ in getattr(ctx, "broken", [])):
+            R.violations = [v for v in R.violations if not v[0].endswith("/proof-broken.json")]
+        msgs = [m for f, ms in getattr(R, "facts_broken", []) if f == "F6" for m in ms]
+        R.violation("f6-reply-sites", dict(kind="proof-broken", broken=msgs, theorems=["ReplySites.no_client_bytes_in_line_replies", "ReplySites.inventory",
+                                                                                         "ReplySites.error_derived_reviewed"],
+                                           summary="line-reply obligation of Props/C03Sites no longer holds for the regenerated source facts: " + "; ".join(msgs)[:700] +
+                                                   " — no framing break found (serve suite + %d command(s) targeted: %s)" % (len(aimed), ",".join(aimed) or "none is a registered executor")),
+                    found_input=False)
 
 
 def replay(R, payload):
